@@ -69,7 +69,7 @@ func run(c *vk.Ctx) {
 			n = c.Pick(5, 60)
 		}
 		// cases run one after another on a server: the fault phase changes the shared latency knob
-		sem.RunCases(c, s, fmt.Sprintf("srv%d", di), n, gen.Options{}, 0, 1, func(i int, r *rand.Rand, p *sem.Prepared, _ []*openfgav1.TupleKey) {
+		sem.RunCases(c, s, fmt.Sprintf("srv%d", di), n, gen.Options{HierarchyEvery: 3}, 0, 1, func(i int, r *rand.Rand, p *sem.Prepared, _ []*openfgav1.TupleKey) {
 			oneCase(c, i, r, p, cs)
 		})
 		for k, v := range oc.Stats() {
